@@ -175,6 +175,11 @@ class MessageSigner(object):
         if hasattr(key, "public_pair"):
             return bool(key.public_pair() == pair)
         else:
+            info = key.info() if hasattr(key, "info") else {}
+            if info.get("type", "p2pkh") not in ("p2pkh", "p2pkh_wit"):
+                # a script-hash (or other) address is not the address of a key,
+                # whatever 20 bytes it carries
+                return False
             key_hash160 = key.hash160()
             pair_hash160 = public_pair_to_hash160_sec(pair, compressed=is_compressed)
             return bool(key_hash160 == pair_hash160)
